@@ -232,7 +232,8 @@ def gen_mutate(rng, profile):
                 hid = rng.choice(sorted(live)) if live and rng.random() < 0.9 else rng.randint(0, 3)
                 k = rng.choice(["h.assign", "h.assign", "h.del", "h.pop", "h.pop", "h.data"])
                 if k == "h.assign":
-                    op = [k, hid, gen_valspec(rng, shadow)]
+                    # fresh values only: an alias could be stored inside itself (cyclic document)
+                    op = [k, hid, ["new", enc(copy.deepcopy(rng.choice(VALS)))]]
                 elif k == "h.pop":
                     op = [k, hid, ["none"] if rng.random() < 0.5 else ["val", gen_valspec(rng, shadow)]]
                 else:
